@@ -298,3 +298,525 @@ def c05_families(rng, tier):
                             "every 8th of the 6-slot multisets over {52 cards, blank}", exhaustive=False,
                             profiles=["release", "chk"], pinned=True))
     return fams
+
+
+# ---- six / seven card hands (C02, C03, C09) ---------------------------------------------------------
+SIX_ROWS = [[0, 1, 2, 3, 4], [0, 1, 2, 3, 5], [0, 1, 2, 4, 5], [0, 1, 3, 4, 5], [0, 2, 3, 4, 5], [1, 2, 3, 4, 5]]
+
+
+def combos(n, k):
+    import itertools
+    return [list(c) for c in itertools.combinations(range(n), k)]
+
+
+def row_targeted(rng, n, op):
+    """for EVERY five-slot combination of n slots: a hand whose unique best five sits exactly in those slots
+    (a straight flush there, low unconnected off-suit cards elsewhere), plus a rotated and a shuffled variant"""
+    out = []
+    for row in combos(n, 5):
+        for top, suit in ((12, 3), (8, 1), (4, 0)):
+            best = [layout(top - i, suit) for i in range(5)] if top > 4 else [layout(r, suit) for r in (3, 2, 1, 0, 12)]
+            junk_ranks = [r for r in (0, 2, 4, 6) if all(rank_of(b) != r for b in best)]
+            junk = [layout(junk_ranks[i], (suit + 1 + i) % 4) for i in range(n - 5)]
+            h = [None] * n
+            for slot, c in zip(row, rng.shuffle(best)):
+                h[slot] = c
+            rest = [i for i in range(n) if i not in row]
+            for slot, c in zip(rest, junk):
+                h[slot] = c
+            out.append(h)
+            out.append(h[1:] + h[:1])
+    return [line(op, h) for h in out]
+
+
+def best_category(ws):
+    import itertools
+    return max(category_of(list(c)) for c in itertools.combinations(ws, 5))
+
+
+def seeded_hands(rng, n, count, op):
+    lines, cats = [], {}
+    for _ in range(count):
+        h = rand_hand(rng, n)
+        if len(lines) < 20000:  # measure the category distribution on a prefix (cheap)
+            c = CAT_NAMES[best_category(h)]
+            cats[c] = cats.get(c, 0) + 1
+        lines.append(line(op, h))
+    return lines, cats
+
+
+def made_hands(rng, n, count, op):
+    """hands built around a strong five (straight flush / quads / full house / flush / straight) so that the rare
+    categories are exercised, completed with random other cards, random slot order"""
+    out = []
+    for i in range(count):
+        kind = i % 5
+        if kind == 0:
+            top, s = 4 + rng.below(9), rng.below(4)
+            five = [layout(top - k, s) for k in range(5)]
+        elif kind == 1:
+            r, k = rng.below(13), rng.below(13)
+            five = [layout(r, s) for s in range(4)] + [layout(k if k != r else (k + 1) % 13, rng.below(4))]
+        elif kind == 2:
+            r, k = rng.below(13), rng.below(12)
+            k = k if k < r else k + 1
+            ss = rng.shuffle([0, 1, 2, 3])
+            five = [layout(r, ss[0]), layout(r, ss[1]), layout(r, ss[2]), layout(k, ss[0]), layout(k, ss[3])]
+        elif kind == 3:
+            s = rng.below(4)
+            five = [layout(r, s) for r in rng.sample(list(range(13)), 5)]
+        else:
+            top = 4 + rng.below(9)
+            five = [layout(top - k, rng.below(4)) for k in range(5)]
+        rest = [c for c in DECK if c not in five]
+        out.append(rng.shuffle(five + rng.sample(rest, n - 5)))
+    return [line(op, h) for h in out]
+
+
+def six_seven_families(rng, tier, op, what):
+    nq = 60000 if tier == "quick" else 600000
+    fams = []
+    for n in (6, 7):
+        sh, cats = seeded_hands(rng, n, nq, "%s %d" % (op, n))
+        fams.append(fam("rows%d" % n, row_targeted(rng, n, "%s %d" % (op, n)),
+                        "for EVERY five-slot combination of %d slots a hand whose unique best five sits exactly in those slots, "
+                        "x3 kinds of best hand, plus a slot rotation of each; %s" % (n, what), pinned=True))
+        fams.append(fam("made%d" % n, made_hands(rng, n, nq // 6, "%s %d" % (op, n)),
+                        "hands built around a straight flush / quads / full house / flush / straight plus random cards, shuffled slots",
+                        pinned=True))
+        fams.append(fam("seeded%d" % n, sh, "seeded random %d distinct cards in random slot order (category distribution of the "
+                        "best hand measured on the first 20000)" % n, categories=cats, pinned=True))
+    if tier == "thorough":
+        fams.append(fam_cmd("all_sixes", ["hands", "--k", "6", "--op", "%s 6" % op],
+                            "ALL 20,358,520 six-card subsets in deck order", pinned=True))
+        fams.append(fam_cmd("sevens_slice", ["hands", "--k", "7", "--op", "%s 7" % op, "--stride", "16", "--offset", str(rng.below(16))],
+                            "every 16th of the 133,784,560 seven-card subsets in deck order (seeded offset)", exhaustive=False, pinned=True))
+    return fams
+
+
+def c02_families(rng, tier):
+    return six_seven_families(rng, tier, "rankv", "values only")
+
+
+def c03_families(rng, tier):
+    n5 = 20000 if tier == "quick" else 200000
+    sh, cats = shuffled_fives(rng, n5, "rank 5")
+    fams = six_seven_families(rng, tier, "rank", "value and reported hand compared exactly")
+    fams.append(fam("fives_identity", sh, "five-card hands: the reported hand is the input", categories=cats, pinned=True))
+    return fams
+
+
+def c09_families(rng, tier):
+    import itertools
+    n = 1500 if tier == "quick" else 30000
+    lines = []
+    for i in range(n):
+        h = rand_hand(rng, 7) if i % 3 else [int(x) for x in made_hands(rng, 7, 1, "x")[0].split()[1:]]
+        lines.append(line("rankv 7", h))
+        for s6 in itertools.combinations(h, 6):
+            lines.append(line("rankv 6", rng.shuffle(list(s6))))
+        for s5 in itertools.combinations(h[:6], 5):
+            lines.append(line("rankv 5", list(s5)))
+    return [fam("seven_six_five_chains", lines,
+                "seeded sevens (one third built around a made hand), each with all seven six-card sub-hands (shuffled) and the "
+                "six five-card sub-hands of its first six cards; the same ranking entry points on related hands", pinned=True)]
+
+
+# ---- C04 ----------------------------------------------------------------------------------------------
+def c04_alphabet():
+    return DECK + [0] + near_miss_words()
+
+
+def c04_families(rng, tier):
+    alpha = c04_alphabet()
+    fams = []
+    sub, pairs, rnd = [], [], []
+    cats = {"valid": 0, "duplicate": 0, "corrupt": 0}
+    nr = 20000 if tier == "quick" else 300000
+    for n in range(2, 8):
+        op = ("vrank %d" % n) if n >= 5 else None
+        base = rand_hand(rng, n)
+        for slot in range(n):
+            for w in alpha:
+                h = list(base)
+                h[slot] = w
+                sub.append(line("valid %d" % n, h))
+                if op and (w in DECK or w % 7 == 0 or w == 0 or w == 0xFFFFFFFF):
+                    sub.append(line(op, h))
+        for i in range(n):
+            for j in range(n):
+                if i < j:
+                    for b in range(3):
+                        h = rand_hand(rng, n)
+                        h[j] = h[i]
+                        pairs.append(line("valid %d" % n, h))
+                        if op:
+                            pairs.append(line(op, h))
+        for k in range(nr // 6):
+            kind = k % 4
+            h = rand_hand(rng, n)
+            if kind == 1:
+                i, j = rng.below(n), rng.below(n)
+                h[j] = h[i]
+            elif kind == 2:
+                h[rng.below(n)] = rng.choice(alpha)
+            elif kind == 3:
+                h = [rng.choice(alpha) if rng.below(3) == 0 else c for c in h]
+            ok = len(set(h)) == n and all(c in DECK for c in h)
+            cats["valid" if ok else ("duplicate" if len(set(h)) < n else "corrupt")] += 1
+            rnd.append(line("valid %d" % n, h))
+            if op:
+                rnd.append(line(op, h))
+    fams.append(fam("slot_substitution", sub, "sizes 2..7: every slot x every alphabet word (52 cards, blank, every single-bit corruption "
+                    "of every card, flagged cards, 0xFFFFFFFF, 0..64, inconsistent-field words) substituted into a valid hand: "
+                    "is_valid / is_corrupt / are_unique / contain_blank; validated ranking for sizes 5..7 on a sub-alphabet",
+                    profiles=["release", "chk"], pinned=True))
+    fams.append(fam("equal_slot_pairs", pairs, "sizes 2..7: EVERY slot pair (i,j) made equal, three hands each", profiles=["release", "chk"], pinned=True))
+    fams.append(fam("seeded_arrangements", rnd, "seeded hands: valid / one duplicated slot / one alphabet word / several alphabet words",
+                    categories=cats, profiles=["release", "chk"], pinned=True))
+    ws, wc = words_family(rng, 2000 if tier == "quick" else 200000)
+    fams.append(fam("filter", ["filter %d" % w for w in ws], "the per-slot recogniser on cards, near-miss words and seeded u32 (its complete "
+                    "2^32 graph is regenerated into Gen/Scan.v on every run)", categories=wc, pinned=True))
+    return fams
+
+
+# ---- C06 / C07 ------------------------------------------------------------------------------------------
+BOUNDARY = [0, 1, 2, 9, 10, 11, 12, 22, 23, 165, 166, 167, 168, 321, 322, 323, 324, 1598, 1599, 1600, 1601, 1608, 1609, 1610, 1611,
+            2466, 2467, 2468, 2469, 3324, 3325, 3326, 3327, 6184, 6185, 6186, 6187, 7460, 7461, 7462, 7463, 7464, 7465, 8191, 8192,
+            16383, 16384, 32767, 32768, 32769, 65534, 65535]
+
+
+def c06_families(rng, tier):
+    n5 = 50000 if tier == "quick" else 500000
+    sh, cats = shuffled_fives(rng, n5, "rank 5")
+    return [
+        fam("all_values", ["hr %d" % v for v in range(65536)] + ["hrdefault"],
+            "HandRank::from on ALL 65,536 values: value, name, class, is_invalid, is_a_valid_hand_rank, determine_name, "
+            "determine_class; and HandRank::default()", exhaustive=True, pinned=True),
+        fam("hands_rank", sh + structured_fives(rng, "rank 5") + made_hands(rng, 6, 3000, "rank 6") + made_hands(rng, 7, 3000, "rank 7"),
+            "hand_rank() / hand_rank_validated() (value, name, class) of seeded and structured five-, six- and seven-card hands",
+            categories=cats, pinned=True),
+    ]
+
+
+def c07_families(rng, tier):
+    n = 150000 if tier == "quick" else 3000000
+    b = BOUNDARY + [rng.below(65536) for _ in range(12)]
+    pairs = ["hrcmp %d %d" % (x, y) for x in b for y in b]
+    rnd = []
+    cats = {"valid_valid": 0, "valid_invalid": 0, "invalid_invalid": 0}
+    for i in range(n):
+        k = i % 4
+        x = rng.below(7464) if k != 3 else rng.below(65536)
+        y = rng.below(7464) if k in (0, 1) else rng.below(65536)
+        if k == 1 and rng.below(4) == 0:
+            y = x
+        vx, vy = 1 <= x <= 7462, 1 <= y <= 7462
+        cats["valid_valid" if vx and vy else ("invalid_invalid" if not vx and not vy else "valid_invalid")] += 1
+        rnd.append("hrcmp %d %d" % (x, y))
+    return [
+        fam("boundary_pairs", pairs, "ALL ordered pairs over every category boundary +-1, 0, 7462..7465, powers of two, 65534/65535 and 12 seeded "
+            "values: cmp, partial_cmp, ==, !=, <, <=, >, >=", pinned=True),
+        fam("seeded_pairs", rnd, "seeded pairs: both valid / mixed / both arbitrary u16, some equal", categories=cats, pinned=True),
+    ]
+
+
+# ---- C08 --------------------------------------------------------------------------------------------------
+def c08_families(rng, tier):
+    n = 20000 if tier == "quick" else 300000
+    hands = []
+    cats = {}
+    for i in range(n):
+        k = 2 + i % 6
+        h = card_or_blank_multiset(rng, k, 10) if i % 3 == 0 else rand_hand(rng, k)
+        cats["size%d" % k] = cats.get("size%d" % k, 0) + 1
+        hands.append(line("shiftn %d" % k, h))
+    val = []
+    for i in range(n // 2):
+        k = 5 + i % 3
+        h = rand_hand(rng, k)
+        val.append(line("rankv %d" % k, h))
+        for _ in range(3):
+            h = [shift_word(w) for w in h]
+            val.append(line("rankv %d" % k, h))
+    return [
+        fam("shift_card", ["shift %d" % w for w in DECK + [0]], "shift_suit on all 52 cards and blank", exhaustive=True, pinned=True),
+        fam("shift_words", ["shift %d" % w for w in near_miss_words()], "shift_suit on near-miss words (beyond the property: ties the model's logic)"),
+        fam("shift_hands", hands, "shift_suit of Two..Seven over cards (and blanks) in random order: slot-wise", categories=cats, pinned=True),
+        fam("value_orbits", val, "seeded five/six/seven-card hands and their three successive suit shifts through the ranking entry points", pinned=True),
+    ]
+
+
+def shift_word(w):
+    if w not in DECK:
+        return 0
+    s = suit_of(w)
+    return layout(rank_of(w), 3 if s == 0 else s - 1)
+
+
+# ---- C11 ---------------------------------------------------------------------------------------------------
+def multisets_of(alpha, k):
+    import itertools
+    return [list(c) for c in itertools.combinations_with_replacement(alpha, k)]
+
+
+def c11_families(rng, tier):
+    alpha = [0, 1, layout(0, 0), layout(0, 1), layout(12, 3), layout(12, 3) | PAIR, 0xFFFFFFFF]
+    ms = []
+    for k in range(2, 8):
+        for m in multisets_of(alpha, k):
+            ms.append(line("sort %d" % k, rng.shuffle(m)))
+    n = 30000 if tier == "quick" else 500000
+    rnd, cats = [], {"random_u32": 0, "cards": 0, "card_or_blank_repeats": 0}
+    for i in range(n):
+        k = 2 + i % 6
+        kind = i % 3
+        if kind == 0:
+            h = [rng.next() & 0xFFFFFFFF for _ in range(k)]
+            cats["random_u32"] += 1
+        elif kind == 1:
+            h = rand_hand(rng, k)
+            cats["cards"] += 1
+        else:
+            h = card_or_blank_multiset(rng, k, 15)
+            cats["card_or_blank_repeats"] += 1
+        rnd.append(line("sort %d" % k, h))
+    return [
+        fam("sort_multisets", ms, "sizes 2..7: ALL multisets over a 7-word alphabet (blank, 1, two deuces, ace of spades, a flagged ace, "
+            "0xFFFFFFFF), shuffled: sort() and sort_in_place()", pinned=True),
+        fam("sort_seeded", rnd, "seeded hands of arbitrary u32 words / distinct cards / cards and blanks with repeats", categories=cats, pinned=True),
+    ]
+
+
+# ---- C12 ---------------------------------------------------------------------------------------------------
+RANK_SYMS = [ord(c) for c in "AaKkQqJjTt0987654321"]
+SUIT_SYMS = [ord(c) for c in "SsHhDdCc"] + [0x2660, 0x2664, 0x2665, 0x2661, 0x2666, 0x2662, 0x2663, 0x2667]
+OTHER_CHARS = [0, 1, 0x20, 0x09, 0x0A, 0x5F, ord("x"), ord("B"), ord("E"), ord("1"), 0x7F, 0x80, 0xA0, 0xFF, 0x3A3, 0x2000, 0x2028, 0x3000, 0x265F,
+               0x2668, 0xFE0F, 0xD7FF, 0xE000, 0xFFFD, 0x1F0A1, 0x10FFFF]
+WS_CHARS = [0x20, 0x09, 0x0A, 0x0B, 0x0C, 0x0D, 0x85, 0xA0, 0x1680, 0x2000, 0x2003, 0x2028, 0x2029, 0x202F, 0x205F, 0x3000]
+
+
+def is_ws(c):
+    return chr(c).isspace() or c in (0x85,)
+
+
+def c12_families(rng, tier):
+    alpha = sorted(set(RANK_SYMS + SUIT_SYMS + OTHER_CHARS))
+    tails = [[], [ord("x")], [0x2660], [ord("A"), ord("S"), ord("K")], [0x10FFFF, 0]]
+    tok = []
+    for a in alpha:
+        if is_ws(a):
+            continue
+        tok.append("parsecard %d" % a)
+        for b in alpha:
+            if is_ws(b):
+                continue
+            for t in tails:
+                if any(is_ws(x) for x in t):
+                    continue
+                tok.append("parsecard " + " ".join(str(x) for x in [a, b] + t))
+    tok.append("parsecard")
+    # token lists with random unicode whitespace runs
+    hands = []
+    cats = {"too_few_tokens": 0, "exact": 0, "extra_tokens": 0}
+    card_tokens = [[r, s] for r in RANK_SYMS[:13] for s in SUIT_SYMS[:8:2] + SUIT_SYMS[8:12]]
+    nh = 4000 if tier == "quick" else 80000
+    for i in range(nh):
+        n = 2 + i % 6
+        nt = rng.below(10)
+        s = []
+        for _ in range(rng.below(3)):
+            s.append(rng.choice(WS_CHARS))
+        for _t in range(nt):
+            kind = rng.below(6)
+            if kind <= 3:
+                t = list(rng.choice(card_tokens))
+            elif kind == 4:
+                t = [rng.choice(alpha) for _ in range(1 + rng.below(3))]
+                t = [c for c in t if not is_ws(c)] or [ord("z")]
+            else:
+                t = list(rng.choice(card_tokens)) + [rng.choice(alpha) for _ in range(rng.below(3))]
+                t = [c for c in t if not is_ws(c)]
+            s += t
+            for _ in range(1 + rng.below(3)):
+                s.append(rng.choice(WS_CHARS))
+        cats["too_few_tokens" if nt < n else ("exact" if nt == n else "extra_tokens")] += 1
+        hands.append("parsehand %d %s" % (n, " ".join(str(c) for c in s)))
+        if i % 3 == 0:
+            hands.append("bcindex " + " ".join(str(c) for c in s))
+    hands += ["parsehand %d" % n for n in range(2, 8)] + ["bcindex"]
+    # arbitrary scalar strings
+    ns = 5000 if tier == "quick" else 100000
+    arb = []
+    for i in range(ns):
+        ln = rng.below(12)
+        s = []
+        for _ in range(ln):
+            k = rng.below(4)
+            c = rng.below(0x80) if k == 0 else (rng.below(0x800) if k == 1 else (rng.below(0x10000) if k == 2 else rng.below(0x110000)))
+            if 0xD800 <= c <= 0xDFFF:
+                c = 0x20
+            s.append(c)
+        arb.append("parsecard " + " ".join(str(c) for c in s if not is_ws(c)))
+        arb.append("parsehand %d %s" % (2 + i % 6, " ".join(str(c) for c in s)))
+        arb.append("bcindex " + " ".join(str(c) for c in s))
+    return [
+        fam("token_pairs", tok, "card tokens: EVERY ordered pair of leading characters from an alphabet of all rank and suit symbols, separators, "
+            "1-4 byte characters, U+0000, U+10FFFF, U+FE0F x 5 tails; single-character and empty tokens", pinned=True),
+        fam("hand_texts", hands, "hand parsers of sizes 2..7 (and BinaryCard::from_index, parse::five_from_index) on 0..9 tokens separated by "
+            "random Unicode whitespace runs; tokens are cards, junk, or cards with tails", categories=cats, pinned=True),
+        fam("arbitrary_strings", arb, "seeded arbitrary scalar-value strings through the card, hand and bit-set parsers", pinned=True),
+        fam("render_roundtrip", ["render %d" % w for w in DECK + [0]], "render with rank+suit glyph / rank+suit letter, parse back; 52 cards and blank",
+            exhaustive=True, pinned=True),
+    ]
+
+
+# ---- C14 / C15 / C16 ----------------------------------------------------------------------------------------
+def popcount_value(rng, k, span=64):
+    bits = rng.sample(list(range(span)), k)
+    v = 0
+    for b in bits:
+        v |= 1 << b
+    return v
+
+
+def c14_families(rng, tier):
+    ws, wc = words_family(rng, 2000 if tier == "quick" else 200000)
+    n = 30000 if tier == "quick" else 1000000
+    bs = [1 << i for i in range(64)]
+    two = [(1 << i) | (1 << j) for i in range(64) for j in range(i)]
+    rnd = [rng.next() >> rng.below(64) for _ in range(n)] + [popcount_value(rng, 1 + rng.below(4)) for _ in range(n // 4)]
+    return [
+        fam("from_ckc_words", ["fromckc %d" % w for w in ws], "BinaryCard::from_ckc on cards, blank, near-miss words, seeded u32 (its complete 2^32 "
+            "graph is regenerated into Gen/Scan.v on every run)", categories=wc, pinned=True),
+        fam("from_bc_single_bits", ["frombc %d" % b for b in bs + [0]], "from_binary_card on all 64 single bits and 0", exhaustive=True, pinned=True),
+        fam("from_bc_two_bits", ["frombc %d" % b for b in two], "from_binary_card on all 2,016 two-bit values", exhaustive=True, pinned=True),
+        fam("from_bc_seeded", ["frombc %d" % b for b in rnd], "seeded u64 of every magnitude and sparse values of 1..4 bits", pinned=True),
+    ]
+
+
+def structured_sets():
+    full = (1 << 52) - 1
+    out = [0, full, (1 << 64) - 1, full ^ 1, full ^ (1 << 51), 1 << 52, 1 << 63, (1 << 52) | 1, full | (1 << 52), ((1 << 64) - 1) ^ full]
+    out += [1 << i for i in range(64)]
+    for r in range(13):
+        g = 0
+        for s in range(4):
+            g |= 1 << (51 - (13 * s + r))
+        out.append(g)
+        out.append(g | (1 << 60))
+    for s in range(4):
+        out.append(((1 << 13) - 1) << (13 * s))
+    return out
+
+
+def c15_families(rng, tier):
+    n = 3000 if tier == "quick" else 100000
+    sets = structured_sets()
+    for i in range(n):
+        d = (2, 8, 32, 56)[i % 4]
+        sets.append(popcount_value(rng, 1 + rng.below(d), 64 if i % 2 else 52))
+    peel = ["peel %d 3" % b for b in sets]
+    ops = []
+    for i, b in enumerate(sets):
+        c = sets[(i * 7 + 3) % len(sets)]
+        ops.append("bcops %d %d" % (b, c))
+        ops.append("bcops %d %d" % (b, b & c))
+        ops.append("bcops %d %d" % (b, 1 << rng.below(64)))
+    hands = []
+    for i in range(n * 3):
+        k = 2 + i % 6
+        hands.append(line("bcfrom %d" % k, card_or_blank_multiset(rng, k, 15)))
+    for k in range(2, 8):
+        hands.append(line("bcfrom %d" % k, [0] * k))
+        hands.append(line("bcfrom %d" % k, [DECK[0]] * k))
+    texts = [l for l in c12_families(rng, "quick")[1]["lines"] if l.startswith("bcindex")]
+    return [
+        fam("peel_histories", peel, "peel to exhaustion + 3 extra peels on structured sets (empty, full, all 64 bits, singletons, rank and suit "
+            "groups, overflow bits, full minus one) and seeded u64 at four densities", pinned=True),
+        fam("set_ops", ops, "fold_in, has, number_of_cards, is_single_card, is_valid on set pairs", pinned=True),
+        fam("from_hands", hands, "from_two .. from_seven over {52 cards, blank} with repetition", pinned=True),
+        fam("from_text", texts, "BinaryCard::from_index on token texts", pinned=True),
+    ]
+
+
+def c16_families(rng, tier):
+    vals = [0] + [1 << i for i in range(64)] + [(1 << i) | (1 << j) for i in range(64) for j in range(64) if i != j]
+    n = 200 if tier == "quick" else 5000
+    rnd = [popcount_value(rng, k) for k in range(0, 65) for _ in range(n // 10 if k > 3 else n)]
+    return [
+        fam("one_two_bits", ["twofrombc %d" % v for v in vals], "ALL 64 x 64 one- and two-bit values (ordered pairs, so every two-bit value twice) and 0",
+            exhaustive=True, pinned=True),
+        fam("seeded_popcounts", ["twofrombc %d" % v for v in rnd], "seeded u64 of every population count 0..64", pinned=True),
+    ]
+
+
+# ---- C17 / C19 / C20 ------------------------------------------------------------------------------------------
+def c17_families(rng, tier):
+    return [
+        fam_cmd("all_pairs", ["pairs", "--op", "two"], "ALL 52 x 51 ordered pairs of distinct cards: chen_formula, get_gap, high_card, is_connector, "
+                "is_pocket_pair, is_suited, is_suited_connector", profiles=["release", "chk"], pinned=True),
+        fam("card_points", ["acc %d" % w for w in DECK + [0]], "per-card Chen points (and all accessors) on the 52 cards and blank", exhaustive=True, pinned=True),
+        fam("shifted_pairs", [line("two", [shift_word(a), shift_word(b)]) for a in DECK[::3] for b in DECK[1::5] if a != b],
+            "suit-shifted pairs", pinned=True),
+    ]
+
+
+def c19_families(rng, tier):
+    n = 3000 if tier == "quick" else 60000
+    hist = []
+    cats = {"set": 0, "arr": 0, "new": 0, "default": 0}
+    for n_slots in range(2, 8):
+        # every setter once on distinct sentinel words
+        for slot in range(n_slots):
+            base = [1000 + i for i in range(n_slots)]
+            hist.append("hist %d arr %s set %d %d" % (n_slots, " ".join(map(str, base)), slot, 4000000000 + slot))
+            hist.append("hist %d new %s set %d %d" % (n_slots, " ".join(map(str, base)), slot, 77 + slot))
+            hist.append("hist %d default set %d %d" % (n_slots, slot, 5 + slot))
+        hist.append("hist %d refarr %s" % (n_slots, " ".join(str(9 + i) for i in range(n_slots))))
+    for i in range(n):
+        n_slots = 2 + i % 6
+        toks = ["hist", str(n_slots)]
+        for _ in range(1 + rng.below(40)):
+            k = rng.below(10)
+            if k < 7:
+                toks += ["set", str(rng.below(n_slots)), str(rng.next() & 0xFFFFFFFF if rng.below(2) else rng.choice(DECK))]
+                cats["set"] += 1
+            elif k == 7:
+                toks += ["arr"] + [str(rng.next() & 0xFFFFFFFF) for _ in range(n_slots)]
+                cats["arr"] += 1
+            elif k == 8:
+                toks += ["new"] + [str(rng.next() & 0xFFFFFFFF) for _ in range(n_slots)]
+                cats["new"] += 1
+            else:
+                toks += ["default"]
+                cats["default"] += 1
+        hist.append(" ".join(toks))
+    perms = []
+    import itertools
+    for n_slots in (6, 7):
+        ws = [100 + 11 * i for i in range(n_slots)]
+        tuples = list(itertools.product(range(n_slots), repeat=5))
+        if tier == "quick":
+            tuples = rng.sample(tuples, 4000)
+        for t in tuples:
+            perms.append("perm %d %s %s" % (n_slots, " ".join(map(str, ws)), " ".join(map(str, t))))
+        for bad in ([0, 1, 2, 3, n_slots], [255, 0, 0, 0, 0], [n_slots, n_slots, 0, 1, 2]):
+            perms.append("perm %d %s %s" % (n_slots, " ".join(map(str, ws)), " ".join(map(str, bad))))
+    return [
+        fam("histories", hist, "every setter of every size after every constructor on distinct sentinel words; seeded histories of 1..40 "
+            "constructor / setter calls with arbitrary u32 words; after EVERY step the container is read back by to_arr, accessors and iter",
+            categories=cats, pinned=True),
+        fam("five_from_permutation", perms, "slot-index selection from six and seven slots: in-range index tuples (%s) and out-of-range ones (panic)"
+            % ("a seeded 4000 of the 6^5 / 7^5" if tier == "quick" else "ALL 6^5 and 7^5"), exhaustive=(tier != "quick"), pinned=True),
+    ]
+
+
+def c20_families(rng, tier):
+    marks = [0, PAIR, TRIPS, QUADS, PAIR | TRIPS, PAIR | QUADS, TRIPS | QUADS, PAIR | TRIPS | QUADS]
+    ws = [c | m for c in DECK for m in marks]
+    return [
+        fam("flags", ["flags %d" % w for w in ws + [0]], "flag_as_pair / trips / quads and strip_multiples_flags on ALL 52 cards x 8 mark "
+            "combinations (and blank)", exhaustive=True, pinned=True),
+        fam("marked_accessors", ["acc %d" % w for w in ws], "every accessor on ALL 52 x 8 marked words", exhaustive=True, pinned=True),
+    ]
